@@ -37,6 +37,8 @@ def main():
     gdir = cfg['gatedir']
     os.environ['LV_GATEDIR'] = gdir
     os.environ['LV_GATE_TIMEOUT'] = '30'
+    if cfg.get('term_grace'):
+        os.environ['LV_TERM_GRACE'] = str(cfg['term_grace'])
     n = cfg['n']
     tasks = [U.Ta(label=i) for i in range(n)]
     lab = Lab(storage=cfg['storage'], runner_backend=cfg['backend'], max_workers=cfg['max_workers'], notebook=False,
